@@ -224,6 +224,16 @@ def scenario_cases(seed, tier):
             "alts": [{"label": f"after a program where c has values {v1}", "hashseed": 0, "jobs": [jobA, jobB], "pick": ["job", 1]},
                      {"label": f"after two programs, PYTHONHASHSEED=2", "hashseed": 2, "jobs": [jobA, jobA, jobB], "pick": ["job", 2]}]},
             "features": ["scenario:same-name-different-finite-type"], "text": jobB["text"]})
+        # (iv) the same guard text over a variable that is never reassigned, with different stopping probabilities
+        q1, q2 = r.sample(["1/2", "1/4", "3/4", "1/3"], 2)
+        def latch_prog(q):
+            return f"g = Bernoulli({q})\nx = 1\nwhile g == 1:\n    x = 2*x + 1 {{1/2}} x\nend\n"
+        gA = {"id": "A-latch", "text": latch_prog(q1), "goals": [{"x": 1}, {"x": 2}], "settings": {}, "N": 3, "values": {}, "source_vars": ["g", "x"], "after_loop": True}
+        gB = {"id": "B-latch", "text": latch_prog(q2), "goals": [{"x": 1}, {"x": 2}], "settings": {}, "N": 3, "values": {}, "source_vars": ["g", "x"], "after_loop": True}
+        out.append({"id": f"scn-guard-{cs}", "scenario": {
+            "ref": {"jobs": [gB], "pick": ["job", 0]},
+            "alts": [{"label": f"after a loop with the same guard text but g = Bernoulli({q1})", "hashseed": 0, "jobs": [gA, gB], "pick": ["job", 1]}]},
+            "features": ["scenario:same-guard-different-stopping-probability"], "text": gB["text"]})
         # (iii) exact_func_moments: functional assignment only in the initial block, after a program with one in the loop
         k = r.choice([1, 2, 3])
         fn = r.choice(["Cos", "Sin", "Exp"])
